@@ -641,7 +641,7 @@ class RedlineEngine:
 
             # An exact match in the Clean View beats an approximate match in the Raw View: the approximate stages
             # may cover a different amount of whitespace around tracked deletions.
-            clean_idx = self.clean_mapper.full_text.find(edit.target_text)
+            clean_idx = self.clean_mapper._find_on_document_text(self.clean_mapper.full_text, edit.target_text)
             if clean_idx != -1:
                 start_idx, match_len = clean_idx, len(edit.target_text)
                 use_clean_map = True
